@@ -279,6 +279,38 @@ def _import_kwargs(v):
     if len(v) > 4:
         io = v[4]
         kw.update(species_prefix=io["isp"], reaction_prefix=io["irp"], default_rule=io["dr"])
+        if io.get("rename"):
+            # the caller renamed the attributes (see _rename_attrs) and tells the importer the new names
+            kw.update(species_label_attr="name", reaction_label_attr="name", reaction_edge_id_attr="eid2", stoich_attr="sto2",
+                      mol_attr=("mol2" if v[3] else None))
+    return kw
+
+
+_RENAMES = {"label": "name", "edge_id": "eid2", "stoich": "sto2", "mol": "mol2"}
+
+
+def _rename_attrs(G, opts):
+    """non-default attribute names on the import side: rename the attributes of a COPY of the exported graph accordingly"""
+    if not (opts and opts.get("rename")):
+        return G
+    G = G.copy()
+    for _, d in G.nodes(data=True):
+        for a, b in _RENAMES.items():
+            if a in d:
+                d[b] = d.pop(a)
+    for _, _, d in G.edges(data=True):
+        for a, b in _RENAMES.items():
+            if a in d:
+                d[b] = d.pop(a)
+    return G
+
+
+def _sg_kwargs(v):
+    kw = {"mol_attr": ("mol" if v[2] else None)}
+    if len(v) > 3:
+        kw["default_rule"] = v[3]["dr"]             # never used for exported graphs: their rule sets are non-empty
+        if v[3].get("rename"):
+            kw.update(species_label_attr="name", mol_attr=("mol2" if v[2] else None))
     return kw
 
 
@@ -324,10 +356,11 @@ def _run_view(H, v, ret=None):
         G = keep(_export_bip(H, fl))
         out = [_bip_obs(G)]
         if do_imp:
-            out.append(_guard(lambda: _net_obs(keep(cv.bipartite_to_hypergraph(G, **_import_kwargs(v))))))
+            out.append(_guard(lambda: _net_obs(keep(cv.bipartite_to_hypergraph(_rename_attrs(G, v[4] if len(v) > 4 else None),
+                                                                                **_import_kwargs(v))))))
         return out
     if k == "sg":
-        _, inc_mol, mol_attr = v
+        inc_mol, mol_attr = v[1], v[2]
         G = keep(cv.hypergraph_to_species_graph(H, include_mol=inc_mol))
         merged = {}
         for _, _, d in G.edges(data=True):
@@ -339,7 +372,8 @@ def _run_view(H, v, ret=None):
             return [e.rule if len(u) == 1 else "", e.rule in u]
         return [_sg_obs(G),
                 # the order of add_rxn calls follows set iteration over via: insertion order is not observable here
-                _guard(lambda: _net_obs(keep(cv.species_graph_to_hypergraph(G, mol_attr=("mol" if mol_attr else None))), rule_of, True))]
+                _guard(lambda: _net_obs(keep(cv.species_graph_to_hypergraph(_rename_attrs(G, v[3] if len(v) > 3 else None), **_sg_kwargs(v))),
+                                        rule_of, True))]
     if k == "str":
         _, inc_rule, inc_id, srt, dr, ps, pf = v
         lines = keep(cv.hypergraph_to_rxn_strings(H, include_rule_suffix=inc_rule, include_edge_id=inc_id, sort=srt))
@@ -535,7 +569,7 @@ def _oracle_view(H, vi, v, edges, mol, occ, ret):
         try:
             G = _export_bip(H, fl)
             ret.append(G)
-            H2 = cv.bipartite_to_hypergraph(G, **_import_kwargs(v))
+            H2 = cv.bipartite_to_hypergraph(_rename_attrs(G, v[4] if len(v) > 4 else None), **_import_kwargs(v))
             ret.append(H2)
             e2 = _edges_of(H2)
             got = {s_: _molenc(m) for s_, m in H2.species_to_mol.items()}
@@ -580,7 +614,7 @@ def _oracle_view(H, vi, v, edges, mol, occ, ret):
             return fails
         G = cv.hypergraph_to_species_graph(H, include_mol=v[1])
         ret.append(G)
-        H2 = cv.species_graph_to_hypergraph(G, mol_attr=("mol" if v[2] else None))
+        H2 = cv.species_graph_to_hypergraph(_rename_attrs(G, v[3] if len(v) > 3 else None), **_sg_kwargs(v))
         ret.append(H2)
         a = {e: (l, r) for e, (_, l, r) in edges.items()}
         b = {e: (l, r) for e, (_, l, r) in _edges_of(H2).items()}
@@ -755,7 +789,8 @@ PREFIXES = [("S:", "R:"), (None, None), ("", "R:"), ("sp/", "rx/"), ("S:", None)
 # values of the networkx `bipartite` marker (species, reaction): default, swapped, booleans, equal, negative, strings, mixed
 MARKERS = [(0, 1), (1, 0), (True, False), (False, True), (0, 0), (1, 1), (5, 7), (7, 5), (-1, 0), (2, 0), (0, 2),
            ("species", "reaction"), ("r", "s"), ("x", "x"), (0, "r"), ("s", 0), ("0", "1")]
-IMPORT_OPTS = [dict(isp="R:", irp="S:", dr="r"), dict(isp="", irp="", dr="zz"), dict(isp="S:", irp="R:", dr=""), dict(isp="A", irp="r", dr="q")]
+IMPORT_OPTS = [dict(isp="R:", irp="S:", dr="r"), dict(isp="", irp="", dr="zz"), dict(isp="S:", irp="R:", dr=""), dict(isp="A", irp="r", dr="q"),
+               dict(isp="S:", irp="R:", dr="r", rename=True), dict(isp="x", irp="R:", dr="d2", rename=True)]
 
 
 def bflags(sp="S:", rp="R:", bv=(0, 1), st=True, ro=True, iso=True, int_=False, eid=True, mol=True):
@@ -995,6 +1030,7 @@ def _gen_cases(tier, rng):
         for io in IMPORT_OPTS:
             vs.append(["bip", bflags(bv=rng.choice(MARKERS), int_=rng.random() < 0.5), True, rng.random() < 0.8, io])
             vs.append(["bip", bflags(sp=None, rp=None, int_=True), True, True, io])
+        vs += [["sg", True, True, dict(dr="zz", rename=True)], ["sg", True, False, dict(dr="", rename=False)], ["sg", False, True, dict(dr="q", rename=True)]]
         rng.shuffle(vs)
         cases.append(dict(kind="markers", net=net, views=vs, hist=(t % 3 == 2)))
     # ---- wrappers / facades of the converters: _as_bipartite (own defaults: integer ids), _as_species_graph, _CRNGraphBackend
